@@ -721,3 +721,17 @@ package core
 //@   loop 1 invariant 0 <= iter && start + iter <= len(f)
 //@   loop 1 invariant forall x string :: ghost(keywritten)[x] == old(ghost(keywritten)[x])
 //@   loop 1 invariant forall j :: start <= j && j < start + iter ==> fn(core.ForkIdPart.Mode, f[j].Id) != 2 && fn(core.ForkIdRange.Length, fn(core.ForkSourcePart.GetRange, f[j])) > 0
+
+// The journal name of a fork (the part of fqname after the call's fqid) is always the
+// fork id passed through encodeJournalName ('.' and '/' escaped), for single-part ids too:
+// parseRunFilename cuts journal file names at dots.
+//@ func core.ForkId.ForkIdString property C11
+//@   trusted
+//@   pure
+//@   opt deterministic on
+
+//@ func core.Fork.updateId property C11
+//@   requires self != nil && self.node != nil && self.node.top != nil
+//@   ensures @journalname self.fqname == fn(syntax.CallGraphNode.GetFqid, self.node.call) + "." + fn("strings.Replacer.Replace", core.encodeJournalName, self.id)
+//@   ensures @id self.id == fn(core.ForkId.ForkIdString, id).0
+//@   loop 1 invariant self.fqname == atloop(self.fqname) && self.id == atloop(self.id) && self.node == atloop(self.node)
